@@ -3,7 +3,6 @@ package props
 import (
 	"bytes"
 	"fmt"
-	"os"
 	"path"
 	"sort"
 	"strings"
@@ -277,9 +276,7 @@ func c15Run(env *fw.Env, c c15Case) fw.Result {
 		return res
 	}
 	dst := "/c15dst"
-	fixTreePerms(dst)
-	os.RemoveAll(dst)
-	if err := os.Mkdir(dst, 0755); err != nil {
+	if err := freshDir(dst); err != nil {
 		return fw.Result{Verdict: fw.Inconclusive, Msg: err.Error()}
 	}
 	m := c15Interpret(es)
